@@ -52,6 +52,13 @@ mut("l2-init-only-first", E, "	for _, e := range es {\n		emitters = append(emitt
 mut("l3-drop-nested", E, "				stack = append(stack, s...)", "				stack = append(stack, s[0])", ["L3"], engines="lib")
 mut("l3-single-wrapped-nop", E, "	case 1:\n		return emitters[0]", "	case 1:\n		return NopEmitter()", ["L3"], engines="lib")
 mut("l4-value-unexported", "error.go", "	Value any\n", "	value any\n", ["L4"], engines="lib", edits=[dict(file="error.go", old="pe.Value, pe.Stacktrace", new="pe.value, pe.Stacktrace")])
+
+mut("g23-revert-f7", "internal/types.go", "o.Pkg() != nil && o.Pkg().Path() == \"context\"", "o.Pkg().Path() == \"context\"", ["G23"], why="finding F7")
+mut("g24-revert-f8", C, "		for _, f := range file.Flows {\n			if f != nil {\n				c.errf(c.nodePosition(f.Node), msgfmt, \"cff.Flow\")\n			}\n		}", "		for _, f := range file.Flows {\n			c.errf(c.nodePosition(f.Node), msgfmt, \"cff.Flow\")\n		}", ["G24"], why="finding F8")
+mut("g24-use-before-nil-test", C, "			if task := c.compileTask(&flow, ce.Args[0], ce.Args[1:]); task != nil {\n				flow.Tasks = append(flow.Tasks, task)", "			if task := c.compileTask(&flow, ce.Args[0], ce.Args[1:]); task != nil || len(flow.Tasks) == 0 {\n				flow.Tasks = append(flow.Tasks, task)", ["G24"])
+mut("g21-map-arity-check-weakened", P, "	if len(fn.Inputs) != 2 {\n		c.errf(c.nodePosition(mmap), \"map function expects two", "	if len(fn.Inputs) > 2 {\n		c.errf(c.nodePosition(mmap), \"map function expects two", ["G21"])
+mut("g20-positioned-synthetic", C, "		Name: &ast.BasicLit{\n			Kind:  token.STRING,", "		Name: &ast.BasicLit{\n			ValuePos: token.Pos(1),\n			Kind:  token.STRING,", ["G20"])
+mut("g19-dedupe-dependson", C, "		for _, depIdx := range g.Dependencies(idx) {\n			fn.DependsOn = append(fn.DependsOn, f.Funcs[depIdx])\n		}", "		for _, depIdx := range g.Dependencies(idx) {\n			if depIdx != idx+1 {\n				fn.DependsOn = append(fn.DependsOn, f.Funcs[depIdx])\n			}\n		}", ["G19"])
 # benign
 mut("benign-errf-wording", C, "\"cff.Flow expects at least one function\"", "\"cff.Flow expects one or more functions\"", [], benign=True)
 mut("benign-not-cff-generic-path", "internal/buildtag.go", "		// Special-case: If \"X\" in \"!X\" is \"cff\",\n		// just remove the \"!\".\n		if t, ok := ex.X.(*constraint.TagExpr); ok && t.Tag == \"cff\" {\n			*exp = ex.X\n			return\n		}\n", "", [], benign=True)
